@@ -229,33 +229,33 @@ def run(ctx):
     # ------------------------------------------------------------------ R4 swap then drain
     R4 = ctx.rule("C02-R4", "close() detaches the queue from the pool before draining it and drains the detached object only", "E6")
     fi = m.method(POOL, "close")
-    swap = None
-    for node in astq.walk_fn(fi.node):
-        if isinstance(node, ast.Assign) and isinstance(node.targets[0], ast.Tuple) and isinstance(node.value, ast.Tuple):
-            tg, vs = node.targets[0].elts, node.value.elts
-            for i, t in enumerate(tg):
-                if astq.is_self_attr(t, qf) and isinstance(vs[i], ast.Constant) and vs[i].value is None:
-                    for j, v in enumerate(vs):
-                        if astq.is_self_attr(v, qf) and isinstance(tg[j], ast.Name):
-                            swap = (node, tg[j].id)
-    if swap is None:
-        # sequential form: old = self.pool ; self.pool = None  (no call in between)
-        stmts = fi.node.body
-        for i, s in enumerate(stmts):
-            if isinstance(s, ast.Assign) and isinstance(s.targets[0], ast.Name) and astq.is_self_attr(s.value, qf):
-                for s2 in stmts[i + 1:]:
-                    if isinstance(s2, ast.Assign) and astq.is_self_attr(s2.targets[0], qf) and isinstance(s2.value, ast.Constant) and s2.value.value is None:
-                        swap = (s2, s.targets[0].id)
-                        break
-                    if astq.calls(s2):
-                        break
-    ctx.ob(R4, fi.qual, "queue field swapped for None before draining", swap is not None, "" if swap else "no `old, self.%s = self.%s, None` (or read-then-clear without a call in between)" % (qf, qf), node=fi.node)
-    drains = [c for c in astq.calls(fi.node) if astq.call_text(c) == "_close_pool_connections"]
-    ctx.sites(R4, len(drains), 1, "drain call in close()")
-    for c in drains:
-        ok = swap is not None and c.args and astq.text(c.args[0]) == swap[1] and c.lineno > swap[0].lineno
-        ctx.ob(R4, fi.qual, f"drain `{astq.text(c)}` uses the detached queue after the swap", bool(ok),
-               "" if ok else "draining the live field lets racing requests take connections that are being closed", node=c)
+    from ..rows import GenRule, effect_rows
+    from ..terms import destruct, subterms
+    QT = f"self.{qf}"  # in a row, the value the field held when the method was entered (a later read after `self.<qf> = None` is the constant None)
+
+    def mentions_queue(e_):
+        if e_[0] == "call" and isinstance(e_[1], str) and (e_[1].startswith(QT + ".") or f"({QT}" in e_[1] or f",{QT}" in e_[1]):
+            return True
+        return any(isinstance(a_, str) and QT in set(subterms(a_.split("=", 1)[-1])) for a_ in e_[2:] if isinstance(a_, str))
+    r4rows = [r for r in effect_rows(ctx, fi, GenRule(ctx, fi.module), POOL) if r.returns]
+    ctx.sites(R4, len(r4rows), 2, "returning rows of close()")
+    n_drain = 0
+    for r in r4rows:
+        evl = list(r.ev)
+        st_i = [i for i, e_ in enumerate(evl) if e_[0] == "store" and e_[1] == "self" and e_[2] == qf]
+        q_i = [i for i, e_ in enumerate(evl) if mentions_queue(e_)]
+        if not st_i:
+            closed = r.is_none(QT) is True
+            ctx.ob(R4, fi.qual, "a path of close() that leaves the queue attached is the already-closed one and touches nothing", closed and not q_i,
+                   "" if closed and not q_i else f"close() returns with the queue still attached (events {evl})", witness=r.witness(), node=fi.node)
+            continue
+        cleared = evl[st_i[0]][3] == "None"
+        ctx.ob(R4, fi.qual, "queue field swapped for None before draining", cleared and all(i > st_i[0] for i in q_i),
+               "" if cleared and all(i > st_i[0] for i in q_i) else f"the live queue is drained before (or without) being detached: events {evl}; racing requests take connections that are being closed", witness=r.witness(), node=fi.node)
+        ctx.ob(R4, fi.qual, "the detached queue is drained after the swap", bool(q_i),
+               "" if q_i else f"after the swap nothing is done with the detached queue (events {evl}): its connections stay open", witness=r.witness(), node=fi.node)
+        n_drain += bool(q_i)
+    ctx.sites(R4, n_drain, 1, "drain of the detached queue in close()")
 
     # ------------------------------------------------------------------ R5 finalizer
     R5 = ctx.rule("C02-R5", "the pool's finalizer does not keep the pool alive: weakref.finalize gets a module-level function and values that do not reach self", "E6")
@@ -376,25 +376,45 @@ def run(ctx):
     q = m.resolve_name(c.module, stmt.value)
     ok = q is not None and m.issub(q, "queue.Queue")
     ctx.ob(R7, c.qual, f"QueueCls = {astq.text(stmt.value)}", ok, "" if ok else f"{q} is not a queue.Queue subclass", node=stmt)
-    gets = []
+    # blocking mode of every take / give on the queue, read off the effect rows (aliases, keyword / positional / **dict forms and
+    # private helpers are all the same call there):  Queue.get(block, timeout), Queue.put(item, block, timeout)
+    def arg(args, i, name):
+        for a_ in args:
+            if a_.startswith(name + "="):
+                return a_[len(name) + 1:]
+        pos_ = [a_ for a_ in args if "=" not in a_.split("(", 1)[0]]
+        return pos_[i] if i < len(pos_) else None
+    gets, puts = [], []
     for fi2 in m.repo_funcs():
-        if fi2.cls and m.issub(fi2.clsq, POOL):
-            al = queue_aliases(fi2.node, qf)
-            gets += [(fi2, c2) for c2 in astq.calls(fi2.node) if is_queue_call(c2, qf, al, ("get",))]
+        if not (fi2.cls and m.issub(fi2.clsq, POOL)) or fi2.name == "__init__":
+            continue
+        if not any(isinstance(n_, ast.Attribute) and n_.attr == qf for n_ in ast.walk(fi2.node)):
+            continue
+        inl = helper_closure(m, [fi2]) - {fi2.qual}
+        for r in effect_rows(ctx, fi2, GenRule(ctx, fi2.module, inline=frozenset(inl)), fi2.clsq, budget=600000):
+            texts = [r.out] + [a_ for e_ in r.ev for a_ in e_ if isinstance(a_, str)] + [k_ for k_ in r.st.facts if isinstance(k_, str)]
+            for t_ in texts:
+                for sub_ in set(subterms(t_.split(":", 1)[-1] if t_.startswith(("return:", "raise:")) else t_)):
+                    op_, as_ = destruct(sub_)
+                    if op_ == "get" and as_ and as_[0] == QT:
+                        gets.append((fi2, arg(list(as_[1:]), 0, "block"), sub_))
+            for e_ in r.ev:
+                if e_[0] == "call" and e_[1] == f"{QT}.put":
+                    as_ = [a_ for a_ in e_[2:] if isinstance(a_, str)]
+                    puts.append((fi2, arg(as_, 1, "block"), f"{e_[1]}({', '.join(as_)})"))
+                if e_[0] == "call" and e_[1] == f"{QT}.get":
+                    as_ = [a_ for a_ in e_[2:] if isinstance(a_, str)]
+                    gets.append((fi2, arg(as_, 0, "block"), f"{e_[1]}({', '.join(as_)})"))
+    gets = list({(x[0].qual, x[1], x[2]): x for x in gets}.values())
+    puts = list({(x[0].qual, x[1], x[2]): x for x in puts}.values())
     ctx.sites(R7, len(gets), 1, "queue get sites")
-    for fi2, c2 in gets:
-        b = astq.kwarg(c2, "block")
-        ok = b is not None and astq.text(b) == "self.block"
-        ctx.ob(R7, fi2.qual, f"`{astq.text(c2)}` blocks iff the pool is a blocking pool", ok, "" if ok else "blocking mode of the take does not follow self.block", node=c2)
-    puts = []
-    for fi2 in m.repo_funcs():
-        if fi2.cls and m.issub(fi2.clsq, POOL) and fi2.name != "__init__":
-            al = queue_aliases(fi2.node, qf)
-            puts += [(fi2, c2) for c2 in astq.calls(fi2.node) if is_queue_call(c2, qf, al, ("put",))]
-    for fi2, c2 in puts:
-        b = astq.kwarg(c2, "block")
-        ok = b is not None and isinstance(b, ast.Constant) and b.value is False
-        ctx.ob(R7, fi2.qual, f"`{astq.text(c2)}` never blocks (a full queue discards instead of deadlocking)", ok, node=c2)
+    ctx.sites(R7, len(puts), 1, "queue put sites")
+    for fi2, b, txt in gets:
+        ok = b == "self.block"
+        ctx.ob(R7, fi2.qual, f"`{txt}` blocks iff the pool is a blocking pool", ok, "" if ok else "blocking mode of the take does not follow self.block", node=fi2.node)
+    for fi2, b, txt in puts:
+        ok = b == "False"
+        ctx.ob(R7, fi2.qual, f"`{txt}` never blocks (a full queue discards instead of deadlocking)", ok, "" if ok else "a blocking put on a full queue deadlocks the releasing thread", node=fi2.node)
 
     # ------------------------------------------------------------------ R8 the response-side half of the lease (shared with C01)
     R8 = ctx.rule("C02-R8", "no lost slot on the response side (shared with C01): a response gives its connection back at most once (C01-R4), an unclean body read closes response and connection and returns the slot exactly once (C01-R6), and every disposal path - read to EOF, drain_conn, release_conn - reaches the give (C01-R7); a slot lost here blocks every later request of a block=True pool", "E4 (shared with C01)")
